@@ -5,7 +5,7 @@ spec:   IoBuf (port algebra Slice/Index/Concat/Invert over [dir, inv, src]; Buff
         register machine; evaluation of port-building programs; theorems), IoBufCases (builder: every state with a
         finished program = one test case with the specification's answers), IoBufFF (the FFBuffer machine explored
         over all event sequences; theorem Latency1), IoBufTrace (validation of recorded executions and netlists).
-stages: mc        IoBufCases theorems on every enumerated port, IoBufFF Latency1, four mutant models that must fail
+stages: mc        IoBufCases theorems on every enumerated port, IoBufFF Latency1, five mutant models that must fail
                   (all TLC runs concurrently)
         cases     spec -> code: every finished program is rebuilt from io.SimulationPort leaves with the public
                   operators; len / direction / invert compared literally; (Buffer|FFBuffer, direction) constructors are
@@ -37,10 +37,13 @@ CONSTANTS Mutant = "{mutant}"
  MaxDepth = {depth}
  ConcatK = {k}
  BoolForms = {bools}
+ LeafDirs = {{{dirs}}}
+ NegKeys = {neg}
  WithSim = {sim}
 INVARIANT PortsWellFormed
 INVARIANT InvertInvolution
 INVARIANT SliceLaws
+INVARIANT KeyLaws
 INVARIANT ConcatLaws
 INVARIANT Loopback
 INVARIANT Disjoint
@@ -54,6 +57,8 @@ CONSTANTS Mutant = "{mutant}"
  MaxDepth = 2
  ConcatK = 0
  BoolForms = FALSE
+ LeafDirs = {{"io"}}
+ NegKeys = TRUE
  WithSim = FALSE
 INVARIANT {inv}
 CHECK_DEADLOCK FALSE
@@ -123,7 +128,7 @@ def render(prog):
             inv = op["b"] if op["form"] == "bool" else "".join("1" if b else "0" for b in op["inv"])
             out.append("L(%s,%d,inv=%s)" % (op["dir"], op["w"], inv))
         elif op["op"] == "slice":
-            out.append("[%d:%d]" % (op["lo"], op["hi"]))
+            out.append("[%s:%s]" % ("" if op["olo"] else op["lo"], "" if op["ohi"] else op["hi"]))
         elif op["op"] == "index":
             out.append("[%d]" % op["i"])
         elif op["op"] == "invert":
@@ -163,7 +168,7 @@ def build_port(prog, mk_leaf=sim_leaf):
                 leaves.append(leaf)
                 stack.append(leaf)
             elif o == "slice":
-                stack[-1] = stack[-1][op["lo"]:op["hi"]]
+                stack[-1] = stack[-1][slice(None if op["olo"] else op["lo"], None if op["ohi"] else op["hi"])]
             elif o == "index":
                 stack[-1] = stack[-1][op["i"]]
             elif o == "invert":
@@ -391,7 +396,7 @@ def export_netlist(prog, cls, kind, bdir):
 # ------------------------------------------------------------------------------------------------
 # cases: every finished program of the builder dump
 def _case_worker(job):
-    path, lo, hi, stims, sim_mod, sim_res = job
+    path, lo, hi, stims, sim_mod, sim_res, real = job
     out = {"n": 0, "n_err": 0, "n_sim": 0, "n_ctor": 0, "n_buf": 0, "n_rej": 0, "mism": [], "fps": [], "sample": None, "ops": {}}
     bench = None
     pending = 0
@@ -433,7 +438,16 @@ def _case_worker(job):
             if got != want or not all(isinstance(b, bool) for b in port.invert):
                 out["mism"].append({"mode": "algebra", "prog": [_op(o) for o in prog], "what": "len/direction/invert",
                                     "expected": list(want), "actual": [got[0], got[1], list(got[2])]})
-                continue
+                if got[:2] != want[:2]:
+                    continue              # (a wrong mask alone is also shown by the buffers' behaviour below)
+            if real:                  # the same expression on real I/O ports (no simulation: attributes only)
+                for cls, mk in (("SingleEndedPort", se_leaf), ("DifferentialPort", diff_leaf)):
+                    rstack, _, rerr = build_port(prog, mk)
+                    rgot = rerr or (len(rstack[0]), rstack[0].direction.value, tuple(rstack[0].invert))
+                    if rgot != want:
+                        out["mism"].append({"mode": "algebra", "cls": cls, "prog": [_op(o) for o in prog],
+                                            "what": "len/direction/invert on " + cls, "expected": list(want),
+                                            "actual": rgot if rerr else [rgot[0], rgot[1], list(rgot[2])]})
             src = [tuple(x) for x in p["src"]]
             if out["sample"] is None and len(prog) >= 4 and want[0] >= 2 and any(want[2]) and exp["acc"] and exp["acc"][-1]["obs"]:
                 out["sample"] = {"program": r, "len": want[0], "direction": want[1], "invert": list(want[2]), "wires": src,
@@ -475,10 +489,10 @@ def _case_worker(job):
     return out
 
 
-def case_jobs(ctx, stage, r, dump, stims, sim_mod):
+def case_jobs(ctx, stage, r, dump, stims, sim_mod, real):
     ctx.require_actions(r, ["PushLeaf", "DoSlice", "DoIndex", "DoInvert", "DoConcat"], stage)
     sim_res = ctx.rng.randrange(sim_mod) if sim_mod else 0
-    return [(dump + ".dump", lo, hi, stims, sim_mod, sim_res) for lo, hi in expr_replay.split_dump(dump + ".dump", 48)]
+    return [(dump + ".dump", lo, hi, stims, sim_mod, sim_res, real) for lo, hi in expr_replay.split_dump(dump + ".dump", 48)]
 
 
 def collect_cases(ctx, stage, res, sim_mod):
@@ -576,10 +590,21 @@ def gen_programs(rng, n, maxw=9, maxleaves=4):
                 elif c < .8 or cur == 0:
                     lo = rng.randint(0, cur)
                     hi = rng.randint(lo, cur)
-                    prog.append({"op": "slice", "lo": lo, "hi": hi})
+                    op = {"op": "slice", "lo": lo, "olo": False, "hi": hi, "ohi": False}
+                    # the same selection written the Python way: from the end, or with the bound left out
+                    if lo == 0 and rng.random() < .5:
+                        op.update(olo=True)
+                    elif lo < cur and rng.random() < .4:
+                        op.update(lo=lo - cur)
+                    if hi == cur and rng.random() < .5:
+                        op.update(hi=0, ohi=True)
+                    elif hi < cur and rng.random() < .4:
+                        op.update(hi=hi - cur)
+                    prog.append(op)
                     cur = hi - lo
                 else:
-                    prog.append({"op": "index", "i": rng.randrange(cur)})
+                    i = rng.randrange(cur)
+                    prog.append({"op": "index", "i": i - cur if rng.random() < .5 else i})
                     cur = 1
             if j:
                 prog.append({"op": "concat"})
@@ -636,22 +661,27 @@ def run(ctx):
         json.dump({"stims": stims}, f)
 
     # ---------------- mc: all TLC runs of the models, concurrently ------------------------------------------------
-    base = dict(mutant="", depth=2, bools="FALSE", sim="TRUE", extra="")
+    base = dict(mutant="", depth=2, bools="FALSE", sim="TRUE", extra="", dirs='"i", "o", "io"', neg="FALSE")
+    # (name, builder instance, simulate 1 in N of the programs longer than 3 operations (0 = no simulation),
+    #  also rebuild on SingleEndedPort / DifferentialPort leaves)
     if th:
-        builders = [("cases-w2", dict(base, leafw="0,1,2", k=1), 2),
-                    ("cases-w3", dict(base, leafw="0,1,2,3", k=1, sim="FALSE", extra="INVARIANT ExpIsEval"), 0),
-                    ("cases-w3-sim", dict(base, leafw="0,3", k=0, bools="TRUE"), 2)]
+        builders = [("cases-w2", dict(base, leafw="0,1,2", k=1), 2, False),
+                    ("cases-w3", dict(base, leafw="0,1,2,3", k=1, sim="FALSE", extra="INVARIANT ExpIsEval"), 0, False),
+                    ("cases-w3-sim", dict(base, leafw="0,3", k=0, bools="TRUE"), 2, False),
+                    ("cases-keys", dict(base, leafw="0,1,2,3", k=0, dirs='"io"', neg="TRUE"), 2, True)]
     else:
-        builders = [("cases-w2", dict(base, leafw="0,1,2", k=0, bools="TRUE"), 6),
-                    ("cases-k1", dict(base, leafw="2", k=1, sim="FALSE", extra="INVARIANT ExpIsEval"), 0)]
+        builders = [("cases-w2", dict(base, leafw="0,1,2", k=0, bools="TRUE"), 6, False),
+                    ("cases-k1", dict(base, leafw="2", k=1, sim="FALSE", extra="INVARIANT ExpIsEval"), 0, True),
+                    ("cases-keys", dict(base, leafw="0,1,2", k=0, dirs='"io"', neg="TRUE"), 3, True)]
     tour_ws = (1, 2) if th else (1,)
     jobs = [("IoBufCases", "mc/" + name, CFG_CASES.format(**inst), None, 6,
-             ("-coverage", "1", "-dump", os.path.join(ctx.tmp, name)), 1) for name, inst, _ in builders]
+             ("-coverage", "1", "-dump", os.path.join(ctx.tmp, name)), 1) for name, inst, _, _ in builders]
     jobs += [("IoBufFF", "mc/ff-w%d" % w, CFG_FF.format(mutant="", w=w), None, 2,
               ("-coverage", "1") + (("-dump", "dot,actionlabels", os.path.join(ctx.tmp, "ffg_%d" % w)) if w in tour_ws else ()), 1)
              for w in ((1, 2, 3) if th else (1, 2))]
     jobs += [("IoBufCases", "mc/mutant-concat_rev", CFG_CASES_MUT.format(mutant="concat_rev", inv="ConcatLaws"), "ConcatLaws", 2, (), 0),
              ("IoBufCases", "mc/mutant-invert_same", CFG_CASES_MUT.format(mutant="invert_same", inv="InvertInvolution"), "InvertInvolution", 2, (), 0),
+             ("IoBufCases", "mc/mutant-neg_index_empty", CFG_CASES_MUT.format(mutant="neg_index_empty", inv="KeyLaws"), "KeyLaws", 2, (), 0),
              ("IoBufCases", "mc/mutant-no_in_inv", CFG_CASES_MUT.format(mutant="no_in_inv", inv="Loopback"), "Loopback", 2, (), 0),
              ("IoBufFF", "mc/mutant-oe_wrong_domain", CFG_FF.format(mutant="oe_wrong_domain", w=1), "Latency1", 2, (), 0)]
 
@@ -697,14 +727,14 @@ def run(ctx):
     alljobs = [("tour", j) for j in tour_jobs] + [("random", j) for j in rjobs] + [("net", j) for j in njobs]
     # cases (spec -> code): every finished program of every builder dump, in the same process pool
     cjobs = []
-    for name, inst, sim_mod in builders:
-        cjobs += [("case:" + name, j) for j in case_jobs(ctx, name, results["mc/" + name], os.path.join(ctx.tmp, name), stims, sim_mod)]
+    for name, inst, sim_mod, real in builders:
+        cjobs += [("case:" + name, j) for j in case_jobs(ctx, name, results["mc/" + name], os.path.join(ctx.tmp, name), stims, sim_mod, real)]
     ctx.rng.shuffle(alljobs)
     both = cjobs + alljobs
     order = sorted(range(len(both)), key=lambda n: (n % 7, n))           # interleave long and short jobs
     out = pmap(_any_job, [both[n] for n in order], chunksize=2)
     byidx = dict(zip(order, out))
-    for name, inst, sim_mod in builders:
+    for name, inst, sim_mod, real in builders:
         collect_cases(ctx, name, [byidx[n] for n, j in enumerate(both) if j[0] == "case:" + name], sim_mod)
         os.unlink(os.path.join(ctx.tmp, name) + ".dump")
     for n, (what, job) in enumerate(both):
@@ -775,7 +805,7 @@ def run(ctx):
                        "with at least one cell")
     ctx.assume("builder bounds: %s; every leaf is used once; slices 0 <= lo <= hi <= len only (the language refuses lo > hi)"
                % "; ".join("%s: leaf widths {%s}, depth <= 2, sums of operands whose depths add up to <= %d" % (n, i["leafw"], i["k"])
-                           for n, i, _ in builders))
+                           for n, i, _, _ in builders))
     ctx.assume("simulated stimulus = %d steps chosen from the seed, checked complete per wire by TLC (ASSUME StimComplete): all "
                "eight (o, oe, port input) combinations on every wire, any two wires told apart, all four edge combinations" % len(stims))
     ctx.assume("power-on contents of FFBuffer registers are not compared (observations start after the first edge of the domain)")
@@ -810,6 +840,8 @@ def replay(ctx, rep):
     stack, leaves, err = build_port(prog)
     print("program:", render(prog))
     if m["mode"] == "algebra":
+        if m.get("cls"):
+            stack, leaves, err = build_port(prog, se_leaf if m["cls"] == "SingleEndedPort" else diff_leaf)
         got = err or (len(stack[0]), stack[0].direction.value, list(stack[0].invert))
         print("amaranth:", got, " IoBuf:", m["expected"])
         bad = (list(got) if not isinstance(got, str) else got) != m["expected"] and got != m["expected"]
